@@ -258,3 +258,44 @@ def dispatch_shape(model):
         'call': call,
     }
     return fi, facts
+
+
+def class_dispatch_targets(fi):
+    """method names a dispatcher function reaches on the class of one of its arguments (or on UTPM explicitly):
+        P.__class__.NAME(...)   type(P).NAME(...)   getattr(P.__class__, 'NAME')(...)   UTPM.NAME(...)   P.NAME(...)
+    -> {NAME: [call nodes]}; P must be a parameter of the dispatcher (or a name bound from one by a loop over *args)"""
+    params = set(fi.params) | set(fi.kwonly) | ({fi.vararg} if fi.vararg else set())
+    for n in walk_no_nested(fi.node):
+        if isinstance(n, ast.For) and isinstance(n.target, ast.Name) and any(isinstance(x, ast.Name) and x.id in params for x in ast.walk(n.iter)):
+            params.add(n.target.id)
+        if isinstance(n, ast.For) and isinstance(n.target, ast.Tuple):
+            for e in n.target.elts:
+                if isinstance(e, ast.Name) and any(isinstance(x, ast.Name) and x.id in params for x in ast.walk(n.iter)):
+                    params.add(e.id)
+
+    def cls_of_param(e):
+        if isinstance(e, ast.Attribute) and e.attr == '__class__' and isinstance(e.value, ast.Name) and e.value.id in params:
+            return e.value.id
+        if isinstance(e, ast.Attribute) and e.attr == '__class__' and isinstance(e.value, ast.Subscript) \
+                and isinstance(e.value.value, ast.Name) and e.value.value.id in params:
+            return e.value.value.id
+        if isinstance(e, ast.Call) and isinstance(e.func, ast.Name) and e.func.id == 'type' and len(e.args) == 1 \
+                and isinstance(e.args[0], ast.Name) and e.args[0].id in params:
+            return e.args[0].id
+        return None
+
+    out = {}
+    for c in walk_no_nested(fi.node):
+        if not isinstance(c, ast.Call):
+            continue
+        f = c.func
+        if isinstance(f, ast.Attribute):
+            if cls_of_param(f.value) is not None or (isinstance(f.value, ast.Name) and f.value.id == 'UTPM'):
+                out.setdefault(f.attr, []).append(c)
+            elif isinstance(f.value, ast.Name) and f.value.id in params:
+                out.setdefault(f.attr, []).append(c)
+        elif isinstance(f, ast.Call) and isinstance(f.func, ast.Name) and f.func.id == 'getattr' and len(f.args) >= 2 \
+                and isinstance(f.args[1], ast.Constant) and isinstance(f.args[1].value, str) \
+                and (cls_of_param(f.args[0]) is not None or (isinstance(f.args[0], ast.Name) and f.args[0].id in ('UTPM',) | params)):
+            out.setdefault(f.args[1].value, []).append(c)
+    return out
